@@ -9,6 +9,15 @@
 
 namespace vos {
 
+// calls made by the harness itself (peers, drain threads) while a Bypass is alive on this
+// thread go straight to the real functions: not logged, not scripted, not counted, real time
+struct Bypass
+{
+  Bypass();
+  ~Bypass();
+  Bypass(Bypass const &) = delete;
+};
+
 // ---- control -------------------------------------------------------------
 void reset();                              // clear script, log, counters, names; virtual time off
 void virtual_time(bool on);                // steady_clock / CLOCK_MONOTONIC become virtual (starts at 10^12 ns)
